@@ -3,6 +3,7 @@
 // single-allocation failures (F1, F2) + seeded samples of F3..F6, each under
 // freshly drawn legal-behaviour knobs of the simulated heap.
 #include "runner.h"
+#include "ambient.h"
 
 #include <algorithm>
 
@@ -174,6 +175,7 @@ JP runC17(uint64_t runSeed, int64_t runIdx, const TierCfg &cfg) {
     JP violations = JVal::arr();
     Result ref;
     std::string why;
+    ambientResetStreams();
     if (!attributable(op, ref, why)) {
         line->set("observation", why + ": " + op.brief());
         line->set("observation_op", op.toJson(false));
@@ -329,6 +331,7 @@ std::vector<Verdict> replayCaseC17(const Case &c, std::string &note) {
     Result ref;
     std::string why;
     std::vector<Verdict> none;
+    ambientResetStreams();
     if (!attributable(c.op, ref, why)) {
         note = "operation not attributable: " + why;
         return none;
